@@ -1061,6 +1061,8 @@ where
     /// * `Err(BTreeError)` if failed
     pub fn insert(&self, doc_id: PK, field_value: FV, now_ms: u64) -> Result<bool, BTreeError> {
         // Shared with other mutations, exclusive against `compact_buckets`.
+        #[cfg(feature = "verif")]
+        anda_db_utils::verif::point("btree.insert.0");
         let _mutation_guard = self.mutation_gate.read();
 
         // Validate `doc_id` serialization up-front, before any state is
@@ -1134,6 +1136,8 @@ where
             }
         };
 
+        #[cfg(feature = "verif")]
+        anda_db_utils::verif::point("btree.insert.1");
         if is_new {
             // Add the field value to the B-tree for range queries.
             //
@@ -1149,6 +1153,8 @@ where
             }
         }
 
+        #[cfg(feature = "verif")]
+        anda_db_utils::verif::point("btree.insert.2");
         // If the index was modified, update bucket state
         let mut new_bucket = 0;
         if size_increase > 0 {
@@ -1220,6 +1226,8 @@ where
             }
         }
 
+        #[cfg(feature = "verif")]
+        anda_db_utils::verif::point("btree.insert.3");
         if new_bucket > 0 {
             // Create a new bucket and migrate this data to it
             match self.buckets.entry(new_bucket) {
@@ -1236,6 +1244,8 @@ where
             }
         }
 
+        #[cfg(feature = "verif")]
+        anda_db_utils::verif::point("btree.insert.4");
         if size_increase > 0 {
             self.update_metadata(|m| {
                 m.stats.version += 1;
@@ -1260,6 +1270,8 @@ where
     /// * `bool` - `true` if the document_id-field_value pair was successfully removed, `false` otherwise
     pub fn remove(&self, doc_id: PK, field_value: FV, now_ms: u64) -> bool {
         // Shared with other mutations, exclusive against `compact_buckets`.
+        #[cfg(feature = "verif")]
+        anda_db_utils::verif::point("btree.remove.0");
         let _mutation_guard = self.mutation_gate.read();
 
         let mut removed = false;
@@ -1291,6 +1303,8 @@ where
             }
         }
 
+        #[cfg(feature = "verif")]
+        anda_db_utils::verif::point("btree.remove.1");
         if removed {
             let mut entry_removed = false;
             if posting_empty {
@@ -1302,6 +1316,8 @@ where
                     .remove_if(&field_value, |_, posting| posting.2.is_empty())
                     .is_some();
 
+                #[cfg(feature = "verif")]
+                anda_db_utils::verif::point("btree.remove.2");
                 if entry_removed {
                     self.remove_btree_key_if_posting_absent(&field_value);
                 }
@@ -1313,6 +1329,8 @@ where
                 doc_size_decrease
             };
 
+            #[cfg(feature = "verif")]
+            anda_db_utils::verif::point("btree.remove.3");
             // Update the bucket state
             if let Some(mut b) = self.buckets.get_mut(&bucket_id) {
                 b.0 = b.0.saturating_sub(size_decrease);
@@ -1390,6 +1408,8 @@ where
         }
 
         // Shared with other mutations, exclusive against `compact_buckets`.
+        #[cfg(feature = "verif")]
+        anda_db_utils::verif::point("btree.insert_array.0");
         let _mutation_guard = self.mutation_gate.read();
 
         // Validate `doc_id` serialization up-front, before any state is
@@ -1423,6 +1443,8 @@ where
             }
         }
 
+        #[cfg(feature = "verif")]
+        anda_db_utils::verif::point("btree.insert_array.1");
         // Ensure the current bucket exists (see insert()).
         let bucket_id = self.max_bucket_id.load(Ordering::Relaxed);
         if !self.buckets.contains_key(&bucket_id) {
@@ -1441,6 +1463,8 @@ where
         let mut deferred_error: Option<BTreeError> = None;
 
         for field_value in field_values {
+            #[cfg(feature = "verif")]
+            anda_db_utils::verif::point("btree.insert_array.2");
             let mut size_increase = 0;
             let mut target_bucket_id = bucket_id;
             match self.postings.entry(field_value.clone()) {
@@ -1503,6 +1527,8 @@ where
             }
         }
 
+        #[cfg(feature = "verif")]
+        anda_db_utils::verif::point("btree.insert_array.3");
         // Add all new values to the B-tree in a single operation.
         // Same phantom-key guard as in `insert`: skip keys whose posting was
         // concurrently removed between posting creation and this point.
@@ -1515,11 +1541,15 @@ where
             }
         }
 
+        #[cfg(feature = "verif")]
+        anda_db_utils::verif::point("btree.insert_array.4");
         // Phase 2: handle bucket overflow and updates
         // Process each field value individually to avoid migrating existing values unnecessarily.
         // field_values_to_migrate: (old_bucket_id, field_value, size)
         let mut field_values_to_migrate: Vec<(u32, FV, usize)> = Vec::new();
         for (bucket_id, (size_delta, field_values)) in bucket_updates {
+            #[cfg(feature = "verif")]
+            anda_db_utils::verif::point("btree.insert_array.5");
             let mut bucket_entry = self
                 .buckets
                 .entry(bucket_id)
@@ -1565,6 +1595,8 @@ where
             }
         }
 
+        #[cfg(feature = "verif")]
+        anda_db_utils::verif::point("btree.insert_array.6");
         // Phase 3: Create new buckets if needed
         if !field_values_to_migrate.is_empty() {
             let mut next_bucket_id = self.max_bucket_id.fetch_add(1, Ordering::Relaxed) + 1;
@@ -1577,10 +1609,14 @@ where
             }
 
             for (old_bucket_id, field_value, size) in field_values_to_migrate {
+                #[cfg(feature = "verif")]
+                anda_db_utils::verif::point("btree.insert_array.7");
                 if let Some(mut posting) = self.postings.get_mut(&field_value) {
                     posting.0 = next_bucket_id;
                 }
 
+                #[cfg(feature = "verif")]
+                anda_db_utils::verif::point("btree.insert_array.8");
                 if let Some(mut ob) = self.buckets.get_mut(&old_bucket_id)
                     && ob.2.swap_remove_if(|k| &field_value == k).is_some()
                 {
@@ -1589,6 +1625,8 @@ where
                     self.mark_bucket_dirty(&mut ob);
                 }
 
+                #[cfg(feature = "verif")]
+                anda_db_utils::verif::point("btree.insert_array.9");
                 let mut new_bucket = false;
                 {
                     // entry().or_insert_with() instead of get_mut(): the bucket
@@ -1610,6 +1648,8 @@ where
                     }
                 }
 
+                #[cfg(feature = "verif")]
+                anda_db_utils::verif::point("btree.insert_array.10");
                 if new_bucket {
                     next_bucket_id = self.max_bucket_id.fetch_add(1, Ordering::Relaxed) + 1;
                     // update the posting's bucket_id again
@@ -1617,6 +1657,8 @@ where
                         posting.0 = next_bucket_id;
                     }
 
+                    #[cfg(feature = "verif")]
+                    anda_db_utils::verif::point("btree.insert_array.11");
                     match self.buckets.entry(next_bucket_id) {
                         dashmap::Entry::Vacant(entry) => {
                             // Create a new bucket with the initial size
@@ -1633,6 +1675,8 @@ where
             }
         }
 
+        #[cfg(feature = "verif")]
+        anda_db_utils::verif::point("btree.insert_array.12");
         // Update metadata if any items were inserted
         if inserted_count > 0 {
             self.update_metadata(|m| {
@@ -1669,6 +1713,8 @@ where
         }
 
         // Shared with other mutations, exclusive against `compact_buckets`.
+        #[cfg(feature = "verif")]
+        anda_db_utils::verif::point("btree.remove_array.0");
         let _mutation_guard = self.mutation_gate.read();
 
         // Track removal statistics
@@ -1679,6 +1725,8 @@ where
 
         // First pass: collect which postings to modify
         for field_value in field_values {
+            #[cfg(feature = "verif")]
+            anda_db_utils::verif::point("btree.remove_array.1");
             let mut removed = false;
             let mut doc_size_decrease = 0;
             let mut full_size_decrease = 0;
@@ -1722,6 +1770,8 @@ where
             }
         }
 
+        #[cfg(feature = "verif")]
+        anda_db_utils::verif::point("btree.remove_array.2");
         // Remove empty postings from the index.
         // Use atomic check-and-remove: a concurrent `insert` might have re-populated
         // a posting between the first pass and here, so only remove if still empty.
@@ -1730,6 +1780,8 @@ where
         for (field_value, bucket_id, doc_size_decrease, full_size_decrease, posting_empty) in
             pending_removals
         {
+            #[cfg(feature = "verif")]
+            anda_db_utils::verif::point("btree.remove_array.3");
             let mut entry_removed = false;
             if posting_empty
                 && self
@@ -1753,14 +1805,20 @@ where
             bucket_entry.1.insert(field_value);
         }
 
+        #[cfg(feature = "verif")]
+        anda_db_utils::verif::point("btree.remove_array.4");
         if !entries_removed.is_empty() {
             for value in &entries_removed {
+                #[cfg(feature = "verif")]
+                anda_db_utils::verif::point("btree.remove_array.5");
                 self.remove_btree_key_if_posting_absent(value);
             }
         }
 
         // Update all modified buckets
         for (bucket_id, (size_decrease, field_values)) in bucket_updates {
+            #[cfg(feature = "verif")]
+            anda_db_utils::verif::point("btree.remove_array.6");
             if let Some(mut bucket) = self.buckets.get_mut(&bucket_id) {
                 bucket.0 = bucket.0.saturating_sub(size_decrease);
                 self.mark_bucket_dirty(&mut bucket); // Mark as dirty
@@ -1780,6 +1838,8 @@ where
             }
         }
 
+        #[cfg(feature = "verif")]
+        anda_db_utils::verif::point("btree.remove_array.7");
         // Update metadata if any items were removed
         if removed_count > 0 {
             self.update_metadata(|m| {
@@ -2470,6 +2530,8 @@ where
         // Exclusive: no mutation may observe — or add to — the half-rebuilt
         // bucket map. Every mutator takes the shared side of this gate before
         // touching any other lock, so the ordering is uniform and deadlock-free.
+        #[cfg(feature = "verif")]
+        anda_db_utils::verif::point("btree.compact_buckets.0");
         let _mutation_guard = self.mutation_gate.write();
 
         let old_count = self.buckets.len();
@@ -2487,6 +2549,8 @@ where
             })
             .collect();
 
+        #[cfg(feature = "verif")]
+        anda_db_utils::verif::point("btree.compact_buckets.1");
         if fv_sizes.is_empty() {
             self.buckets.clear();
             self.buckets.insert(0, (0, true, UniqueVec::default(), 1));
@@ -2516,6 +2580,8 @@ where
 
         // Step 4: Rebuild buckets.
         self.buckets.clear();
+        #[cfg(feature = "verif")]
+        anda_db_utils::verif::point("btree.compact_buckets.2");
         let new_count = bins.len();
         let max_id = new_count.saturating_sub(1) as u32;
 
@@ -2533,6 +2599,8 @@ where
                 .insert(bucket_id, (size, true, field_values.into(), 1));
         }
 
+        #[cfg(feature = "verif")]
+        anda_db_utils::verif::point("btree.compact_buckets.3");
         self.max_bucket_id.store(max_id, Ordering::Relaxed);
         self.update_metadata(|m| {
             m.stats.version += 1;
